@@ -3,7 +3,7 @@
 #  1. patch applies, workspace builds, the repository suite passes unchanged with the patch
 #  2. the demonstration fails with the patch   3. ... and passes without it
 set -u
-D="$1"; RS=/var/tmp/repo-s; T=/var/tmp/repo-s-target
+D="$1"; RS="${SEED_RS:-/var/tmp/repo-s}"; T="${RS}-target"
 if [ ! -d "$RS" ]; then git -C /repo worktree add -q --detach "$RS" HEAD; fi
 clean() { git -C "$RS" checkout -q -- . ; git -C "$RS" clean -fdq; }
 # SEED_BASE: the /repo commit the seeded patch was written against (default: current HEAD)
